@@ -40,7 +40,9 @@ func (es *eventStream) Subscribe(ctx vivid.EventStreamContext, event any) {
 		es.subscribers[eventType] = subscribers
 	}
 	subscriberPath := ctx.Ref().GetPath()
-	if _, ok = subscribers[subscriberPath]; ok {
+	// 同一路径下已有登记即视为"已订阅"。例外：登记来自另一个创建尚未确认的同名 Actor（它在 OnPrelaunch 中订阅，
+	// 若创建被拒绝，其登记将由 unsubscribeUnborn 撤销）——此时由当前订阅者接管，避免自己的订阅被一并撤销。
+	if subscribed, ok := subscribers[subscriberPath]; ok && (subscribed == ctx.Ref() || !isUnborn(subscribed)) {
 		ctx.Logger().Warn("event already subscribed", log.String("event_type", eventType.String()), log.String("subscriber_path", subscriberPath))
 		return
 	}
@@ -64,6 +66,10 @@ func (es *eventStream) Publish(ctx vivid.EventStreamContext, event vivid.Message
 	es.mu.RUnlock()
 
 	for _, subscriber := range subscribers {
+		// 订阅者的创建尚未确认：事件按路径投递，此时发出只会落到占用该名称的另一个 Actor（它从未订阅）或成为死信
+		if isUnborn(subscriber) {
+			continue
+		}
 		es.system.tell(false, subscriber, vivid.StreamEvent(event))
 	}
 
@@ -90,6 +96,36 @@ func (es *eventStream) Unsubscribe(ctx vivid.EventStreamContext, event any) {
 	}
 
 	ctx.Logger().Debug("event unsubscribed", log.String("subscriber_path", subscriberPath), log.String("event_type", eventType.String()))
+}
+
+// isUnborn 判断订阅登记是否来自一个创建尚未确认的 Actor
+func isUnborn(subscriber vivid.ActorRef) bool {
+	ref, ok := subscriber.(*Ref)
+	return ok && ref.unborn.Load()
+}
+
+// unsubscribeUnborn 撤销一个创建被拒绝（名称已被占用、父级已终止或初始化失败）的 Actor 在 OnPrelaunch 中完成的订阅。
+//
+// 这些订阅登记在它的路径下：若不撤销，占用该名称的 Actor 会收到自己从未订阅的事件，不存在的路径则在每次发布时产生死信。
+// 按路径撤销（UnsubscribeAll）会连同占用该名称的 Actor 自己的订阅一并移除，因此只撤销由 ref 这一引用对象本身登记的条目。
+func (es *eventStream) unsubscribeUnborn(ref *Ref) {
+	es.mu.Lock()
+	defer es.mu.Unlock()
+
+	subscriberPath := ref.GetPath()
+	for eventType := range es.subscriberTypes[subscriberPath] {
+		if es.subscribers[eventType][subscriberPath] != vivid.ActorRef(ref) {
+			continue
+		}
+		delete(es.subscribers[eventType], subscriberPath)
+		if len(es.subscribers[eventType]) == 0 {
+			delete(es.subscribers, eventType)
+		}
+		delete(es.subscriberTypes[subscriberPath], eventType)
+	}
+	if len(es.subscriberTypes[subscriberPath]) == 0 {
+		delete(es.subscriberTypes, subscriberPath)
+	}
 }
 
 func (es *eventStream) UnsubscribeAll(ctx vivid.EventStreamContext) {
